@@ -166,6 +166,7 @@ func (ex *Exec) resetStats(job Job, verbose int) {
 	ex.violations, ex.incon, ex.samples, ex.passModels = nil, nil, nil, nil
 	ex.paths, ex.branches, ex.forks, ex.instrs, ex.modelHits = 0, 0, 0, 0, 0
 	ex.params = job.Params
+	ex.preemptBound = job.Params["preempt"]
 	ex.curHarness = spec.Name
 	ex.solver.stats = SolverStats{}
 	ex.qcache = nil // term ids are global, but keep the cache per job to bound memory
